@@ -250,6 +250,60 @@ def unit_ownership(tier):
         return goals
     u.lemma('C20.alive.cached-values-do-not-own-self', build)
     u.results[-1]['replay'] = {'fn': 'verif.props.c20:replay_alive', 'sizes': lambda st: [], 'concretise': lambda m, st, ob: {'method': 'all-but-collective'}}
+
+    def build_inplace(ctx):
+        """The value handed out by a cached method IS the cache entry: library code that binds it to a name must not update it in place
+        (augmented assignment, subscript store, out= argument, in-place array methods), or a later call returns something else than an uncached
+        recomputation would."""
+        meths = _cached_methods(u.sources)
+        cached_names = {name.split('.')[-1] for _m, name, _f in meths}
+        goals = []
+        INPLACE = {'sort', 'fill', 'resize', 'put', 'itemset', 'partition', 'setfield', 'byteswap', 'clear', 'append', 'extend', 'pop', 'remove', 'insert', 'update', 'setdefault'}
+        n_fun = 0
+        for module in ('gemdat.metrics', 'gemdat.transitions', 'gemdat.jumps', 'gemdat.collective', 'gemdat.rdf', 'gemdat.shape', 'gemdat.orientations', 'gemdat.path',
+                       'gemdat.volume', 'gemdat.trajectory'):
+            info = u.sources.load(module)
+            if not info:
+                continue
+            for fname, fi in info['functions'].items():
+                n_fun += 1
+                bound = {}
+                for node in ast.walk(fi.node):
+                    if isinstance(node, ast.Assign) and isinstance(node.value, ast.Call) and isinstance(node.value.func, ast.Attribute) \
+                            and node.value.func.attr in cached_names:
+                        for t in node.targets:
+                            if isinstance(t, ast.Name):
+                                bound[t.id] = node.value.func.attr
+                if not bound:
+                    continue
+                hits = []
+                for node in ast.walk(fi.node):
+                    if isinstance(node, ast.AugAssign):
+                        base = node.target
+                        while isinstance(base, (ast.Subscript, ast.Attribute)):
+                            base = base.value
+                        if isinstance(base, ast.Name) and base.id in bound:
+                            hits.append(f'line {node.lineno}: {ast.unparse(node)[:60]}')
+                    elif isinstance(node, (ast.Assign, ast.AnnAssign)):
+                        for t in (node.targets if isinstance(node, ast.Assign) else [node.target]):
+                            if isinstance(t, ast.Subscript):
+                                base = t.value
+                                while isinstance(base, (ast.Subscript, ast.Attribute)):
+                                    base = base.value
+                                if isinstance(base, ast.Name) and base.id in bound:
+                                    hits.append(f'line {node.lineno}: {ast.unparse(node)[:60]}')
+                    elif isinstance(node, ast.Call):
+                        for kw in node.keywords:
+                            if kw.arg == 'out' and isinstance(kw.value, ast.Name) and kw.value.id in bound:
+                                hits.append(f'line {node.lineno}: out={kw.value.id}')
+                        if isinstance(node.func, ast.Attribute) and node.func.attr in INPLACE and isinstance(node.func.value, ast.Name) and node.func.value.id in bound:
+                            hits.append(f'line {node.lineno}: {ast.unparse(node)[:60]}')
+                goals.append((f'{module}.{fname}: values obtained from cached methods {sorted(set(bound.values()))} are not updated in place {hits}', z3.BoolVal(not hits)))
+        goals.append((f'{n_fun} functions scanned, {len(goals)} of them bind the result of a cached method', z3.BoolVal(n_fun >= 50 and len(goals) >= 3)))
+        ctx.use('AST analysis: names bound to the result of a cached method are never the target of an in-place update in library code')
+        return goals
+    u.lemma('C20.transparent.cached-values-are-not-updated-in-place', build_inplace)
+    u.results[-1]['replay'] = {'fn': 'verif.props.c20:replay_alive', 'sizes': lambda st: [], 'concretise': lambda m, st, ob: {'method': 'all-but-collective'}}
     return u
 
 
